@@ -102,8 +102,8 @@ CONSTS = {
                   beh="Dirs <- BDirs\nThicks <- BThicks\nMats <- BMats\nOffsets <- BOffsets\nMaxPlies = 2\nMaxLen = 4\n",
                   depth=2, nrand=300),
     "thorough": dict(lat="Dirs <- LDirs\nThicks <- LThicks\nMats <- LMats\nOffsets <- LOffsets\nMaxPlies = 2\nMaxLen = 4\n",
-                     beh="Dirs <- QDirs\nThicks <- QThicks\nMats <- BMats\nOffsets <- QOffsets\nMaxPlies = 2\nMaxLen = 4\n",
-                     depth=3, nrand=6000),
+                     beh="Dirs <- QDirs\nThicks <- QThicks\nMats <- BMats\nOffsets <- QOffsets\nMaxPlies = 2\nMaxLen = 8\n",
+                     depth=5, nrand=6000, simulate="num=2500"),
 }
 INVS = "INVARIANT SymmetricABD\nINVARIANT PositiveDefinite\nINVARIANT OffsetLaw\n"
 PROPS = "PROPERTY MirrorLaw\nPROPERTY Rot90Law\nPROPERTY OrderLaw\nPROPERTY SymmetricLaw\nPROPERTY ShiftLaw\n"
@@ -132,10 +132,13 @@ def run(tier, seed, build):
         rep.machinery("parsed %d definitions, TLC has %d states" % (len(defs), lat.distinct))
         return rep.finish()
     # 3. behaviours
+    # quick: every behaviour up to Depth (exhaustive); thorough: TLC -simulate draws longer random behaviours
+    sim = c.get("simulate")
     beh = run_tlc("c01-beh", "MC_Laminate", "SPECIFICATION BehSpec\nCONSTANTS\n%sDepth = %d\n%sCHECK_DEADLOCK FALSE\n"
-                  % (c["beh"], c["depth"], INVS), workers=16, timeout=3000)
+                  % (c["beh"], c["depth"], INVS), workers=16 if not sim else 4, timeout=3000,
+                  simulate=(sim and "%s" % sim), args=(["-depth", str(c["depth"] + 1), "-seed", str(seed)] if sim else []))
     rep.add_tlc("MC_Laminate/BehSpec", beh)
-    if not beh.ok:
+    if not beh.ok and not sim:
         rep.machinery("TLC on Laminate behaviours failed: " + beh.errors())
         return rep.finish()
     hists = [v[1] for v in printed_values(beh.out, "BEH")]
